@@ -88,6 +88,12 @@ class Builder:
             return self.mk("NegateExpression", self.form(f.split(":", 1)[1]))
         if f.startswith("Sgn:"):
             return self.mk("SgnExpression", self.form(f.split(":", 1)[1]))
+        if f.startswith("CMP:"):
+            # compact product  c * x^(exponent form)
+            return self.mk("MultiplyExpression", self.const(), self.mk("PowerExpression", self.var(), self.form(f.split(":", 1)[1])))
+        if f.startswith("Pow:"):
+            # x^(exponent form)
+            return self.mk("PowerExpression", self.var(), self.form(f.split(":", 1)[1]))
         if f.startswith("Paren:"):
             # a sum / difference / product / quotient / power of two compound operands
             kind, inner = f.split(":", 1)[1].split("/")
@@ -223,6 +229,9 @@ def analyse_printer(repo: str, use_cache: bool = True) -> List[dict]:
     deep = [f"Negate:{f}" for f in FORMS if f != "Factorial"] + [f"Sgn:{f}" for f in ("Add", "Negate", "CompactMul")] + \
            [f"Paren:{k}/{i}" for k in ("Multiply", "Divide", "Power", "Subtract") for i in ("Add", "Negate", "CompactMul", "Power", "NegConst", "Const")] + \
            [f"Negate:Paren:{k}/{i}" for k in ("Multiply", "Divide", "Power") for i in ("Add", "Negate", "Const")]
+    exps = [f for f in FORMS if f not in ("Var", "Const")] + ["Paren:Power/Const", "Paren:Power/NegConst", "Negate:Multiply",
+                                                              "Negate:Divide", "Negate:Power", "Paren:Multiply/Add", "Negate:Paren:Power/Const"]
+    deep += [f"CMP:{e}" for e in exps] + [f"Pow:{e}" for e in exps if e.startswith(("Paren", "Negate:"))]
     for parent in BINARY:
         for d in deep:
             for sib in ("Var", "Const"):
